@@ -1255,6 +1255,16 @@ var nameTargets = []int{251, 252, 253, 254, 255, 256, 65534, 65535, 65536, 65537
 // component so that the encoded name value has a length right at a var-number boundary.
 func genName(t *rapid.T, maxComps int, allowHuge, noDigest bool) Name {
 	k := rapid.IntRange(0, maxComps).Draw(t, "ncomp")
+	if maxComps >= 5 && rapid.IntRange(0, 13).Draw(t, "manyComps") == 0 {
+		// a name made of many short components (decoders that size or cap their component slice
+		// from a guess; seeded C12-r5-1 capped the Interest name parser at 32 components)
+		k = rapid.SampledFrom([]int{15, 16, 17, 30, 31, 32, 33, 34, 63, 64, 65, 130}).Draw(t, "ncompMany")
+		n := make(Name, 0, k)
+		for i := 0; i < k; i++ {
+			n = append(n, Comp{T: 8, V: Blob{N: rapid.IntRange(0, 2).Draw(t, "shortLen"), S: byte(i)}})
+		}
+		return n
+	}
 	n := make(Name, 0, k+1)
 	for i := 0; i < k; i++ {
 		// at most one huge component per name keeps cases affordable
